@@ -72,11 +72,11 @@ let hash_lookup (c : case) kind (inp : bytes) : bytes =
           | None -> sentinel)
        else sentinel)
 
-let mk_env (c : case) : env =
+let mk_env_with (c : case) (lock : int) (seq : int) : env =
   let known = List.concat_map (fun (_, k) -> [k.full; k.xonly]) !keys in
   let tap = c.kind = "tr" in
   { e_sv = SvBase;
-    e_locktime = n_of_int c.lock; e_sequence = n_of_int c.seq; e_txversion = n_of_int c.txv;
+    e_locktime = n_of_int lock; e_sequence = n_of_int seq; e_txversion = n_of_int c.txv;
     e_sigok = (fun k s -> List.mem (k, s) c.sigpairs);
     e_keyok = (fun k ->
       let l = List.length k in
@@ -86,6 +86,8 @@ let mk_env (c : case) : env =
     e_hash256 = hash_lookup c "hash256";
     e_ripemd160 = hash_lookup c "ripemd160";
     e_hash160 = hash_lookup c "hash160" }
+
+let mk_env (c : case) : env = mk_env_with c c.lock c.seq
 
 (* ------------------------------------------------------------------ MS prefix parser *)
 exception Parse of string
@@ -175,6 +177,7 @@ let fill_of (c : case) km pm leaf : fill =
         | HRipemd160 -> a.a_ripemd160 h | HHash160 -> a.a_hash160 h) }
 
 let leaf_hash_of_script : (bytes * string) list ref = ref []
+let runs : (string, (bytes list * bytes * bool) option) Hashtbl.t = Hashtbl.create 64
 
 (* ------------------------------------------------------------------ statistics *)
 let stats_ok = ref 0 and stats_bad = ref 0 and stats_err = ref 0 and stats_panic = ref 0
@@ -248,6 +251,7 @@ let handle_run (c : case) (toks : string list) =
       incr stats_panic;
       Printf.printf "PANIC case=%s kind=%s mode=%s keymask=%s premask=%s desc=%s\n" c.id c.kind mode km pm c.desc
     end;
+    if verdict <> "PANIC" then Hashtbl.replace runs (mode ^ "/" ^ km ^ "/" ^ pm) impl;
     let e = mk_env c in
     (* (1) C01 oracle on the implementation's own output *)
     (match impl with
@@ -299,6 +303,89 @@ let handle_run (c : case) (toks : string list) =
     end
   | _ -> failwith "bad RUN line"
 
+
+(* ------------------------------------------------------------------ plans (C17) *)
+let c17_checked = ref 0 and c17_bad = ref 0 and c17_lockprobes = ref 0
+let bad17 c mode km pm what extra =
+  incr c17_bad;
+  Printf.printf "BAD C17 case=%s kind=%s mode=%s keymask=%s premask=%s lock=%d seq=%d what=%s desc=%s %s\n"
+    c.id c.kind mode km pm c.lock c.seq what c.desc extra
+
+let handle_plan (c : case) (toks : string list) =
+  match toks with
+  | mode :: km :: pm :: verdict :: rest ->
+    incr c17_checked;
+    let run = (try Some (Hashtbl.find runs (mode ^ "/" ^ km ^ "/" ^ pm)) with Not_found -> None) in
+    (match verdict, run with
+     | "PANIC", _ -> bad17 c mode km pm "plan-panicked" ""
+     | "NONE", Some (Some _) -> bad17 c mode km pm "no-plan-but-satisfier-succeeds" ""
+     | "NONE", _ -> ()
+     | "OK", _ ->
+       (match rest with
+        | a :: r :: ws :: ss :: _wt :: more ->
+          let ws = int_of_string ws and ss = int_of_string ss in
+          (match run with
+           | Some None -> bad17 c mode km pm "plan-but-satisfier-fails" ""
+           | _ -> ());
+          (match more with
+           | "SATERR" :: _ -> bad17 c mode km pm "plan-cannot-be-completed-by-same-assets" ""
+           | "REAL" :: wser :: sser :: "SAT" :: n :: tl ->
+             let wser = int_of_string wser and sser = int_of_string sser and n = int_of_string n in
+             let rec take k l acc = if k = 0 then (List.rev acc, l) else match l with x :: r -> take (k - 1) r (x :: acc) | [] -> failwith "take" in
+             let (wit, tl) = take n tl [] in
+             let wit = List.map bytes_of_hex wit in
+             let ssig = (match tl with "S" :: s :: _ -> bytes_of_hex s | _ -> failwith "no S") in
+             (* how much of an undershoot is explained by "the script itself is not counted" *)
+             let slen = (match c.scripts with [sc] -> List.length sc | _ -> 0) in
+             let push_len n = n + (if n <= 75 then 1 else if n <= 255 then 2 else 3) in
+             let w_contrib = if c.kind = "wsh" || c.kind = "shwsh" then push_len slen + 2 else 0 in
+             let s_contrib = if c.kind = "sh" then push_len slen + 2 else if c.kind = "shwsh" then 1 else 0 in
+             if ws < wser then
+               bad17 c mode km pm (if ws + w_contrib >= wser && w_contrib > 0 then "announced-witness-size-excludes-script" else "announced-witness-size-too-small")
+                 (Printf.sprintf "announced=%d real=%d" ws wser);
+             if ss < sser then
+               bad17 c mode km pm (if ss + s_contrib >= sser && s_contrib > 0 then "announced-scriptsig-size-excludes-script-push" else "announced-scriptsig-size-too-small")
+                 (Printf.sprintf "announced=%d real=%d" ss sser);
+             (match run with
+              | Some (Some (rw, rs, _)) ->
+                if rw <> wit || rs <> ssig then
+                  bad17 c mode km pm "completed-plan-differs-from-satisfier"
+                    (Printf.sprintf "plan_wit=%s plan_ssig=%s sat_wit=%s sat_ssig=%s" (hexs wit) (hex_of_bytes ssig) (hexs rw) (hex_of_bytes rs))
+              | _ -> ());
+             (* the completed plan must spend (C01 via plan) ... *)
+             let tapok = (match run with Some (Some (_, _, t)) -> t | _ -> true) in
+             let spends lock seq = verify_spend (mk_env_with c lock seq) (fun _ _ -> tapok) c.spk ssig wit in
+             if not (spends c.lock c.seq) then
+               bad17 c mode km pm "completed-plan-does-not-spend" (Printf.sprintf "wit=%s ssig=%s" (hexs wit) (hex_of_bytes ssig))
+             else begin
+               (* ... and the reported locks are sufficient and necessary for this witness *)
+               let ra = if a = "-" then None else Some (int_of_string a) in
+               let rr = if r = "-" then None else Some (int_of_string r) in
+               let lock_exact = (match ra with Some x -> x | None -> 0) in
+               let seq_exact = (match rr with Some x -> x | None -> if ra = None then 0xffffffff else 0xfffffffe) in
+               incr c17_lockprobes;
+               if not (spends lock_exact seq_exact) then
+                 bad17 c mode km pm "reported-locks-not-sufficient" (Printf.sprintf "abs=%s rel=%s" a r);
+               (match ra with
+                | Some x ->
+                  if spends (x - 1) seq_exact then bad17 c mode km pm "abs-lock-not-necessary" (Printf.sprintf "abs=%d accepted_with=%d" x (x - 1));
+                  let other = if x < 500000000 then 500000000 + x else x - 500000000 in
+                  if other > 0 && spends other seq_exact then bad17 c mode km pm "abs-lock-unit-not-checked" (Printf.sprintf "abs=%d accepted_with=%d" x other);
+                  if spends lock_exact 0xffffffff then bad17 c mode km pm "abs-lock-accepted-with-final-sequence" (Printf.sprintf "abs=%d" x)
+                | None -> ());
+               (match rr with
+                | Some x ->
+                  let v = x land 0xffff and ty = x land 0x400000 in
+                  if v > 0 && spends lock_exact (ty lor (v - 1)) then bad17 c mode km pm "rel-lock-not-necessary" (Printf.sprintf "rel=%d accepted_with=%d" x (ty lor (v - 1)));
+                  if spends lock_exact ((ty lxor 0x400000) lor v) then bad17 c mode km pm "rel-lock-unit-not-checked" (Printf.sprintf "rel=%d" x);
+                  if spends lock_exact (0x80000000 lor x) then bad17 c mode km pm "rel-lock-accepted-with-disable-bit" (Printf.sprintf "rel=%d" x)
+                | None -> ())
+             end
+           | _ -> failwith "bad PLAN OK tail")
+        | _ -> failwith "bad PLAN OK")
+     | _ -> failwith "bad PLAN verdict")
+  | _ -> failwith "bad PLAN line"
+
 let () =
   let cur = ref None in
   let ncases = ref 0 in
@@ -335,11 +422,12 @@ let () =
                c.sigpairs <- ((key i).xonly, s) :: c.sigpairs; c.sigs_leaf <- (i, lh, s) :: c.sigs_leaf)
        | "SIGK" :: k :: s :: _ -> upd (fun c -> c.sigpairs <- (bytes_of_hex k, bytes_of_hex s) :: c.sigpairs)
        | "RUN" :: rest -> upd (fun c -> handle_run c rest)
-       | "END" :: _ -> cur := None
+       | "PLAN" :: rest -> upd (fun c -> handle_plan c rest)
+       | "END" :: _ -> cur := None; Hashtbl.reset runs
        | "PANIC" :: _ -> incr stats_panic; print_endline line
        | _ -> ()
      done
    with End_of_file -> ());
-  Printf.printf "SUMMARY cases=%d ok=%d bad=%d err=%d panic=%d model_eq=%d model_diff=%d c02_checked=%d c02_bad=%d\n"
-    !ncases !stats_ok !stats_bad !stats_err !stats_panic !model_eq !model_diff !c02_checked !c02_bad;
+  Printf.printf "SUMMARY cases=%d ok=%d bad=%d err=%d panic=%d model_eq=%d model_diff=%d c02_checked=%d c02_bad=%d c17_checked=%d c17_bad=%d c17_lockprobes=%d\n"
+    !ncases !stats_ok !stats_bad !stats_err !stats_panic !model_eq !model_diff !c02_checked !c02_bad !c17_checked !c17_bad !c17_lockprobes;
   Hashtbl.iter (fun k v -> Printf.printf "HIST %s %d\n" k v) hist
